@@ -57,7 +57,7 @@ def main():
         return 5
     try:
         for c in checks:
-            rc, out = sh(f"/venv/bin/python -m sa.check {c} --tier {tier}", cwd=V)
+            rc, out = sh(f"VERIF_EVIDENCE_DIR=/tmp/verif_seed_evidence VERIF_REPLAY_DIR=/tmp/verif_seed_replays /venv/bin/python -m sa.check {c} --tier {tier}", cwd=V)
             viol = [l for l in out.splitlines() if l.startswith("  rule=")]
             und = [l for l in out.splitlines() if l.startswith("UNDECIDED")]
             results[c] = {"exit": rc, "violations": len([l for l in out.splitlines() if l.startswith("VIOLATION")]), "first": [v.strip()[:300] for v in viol[:3]], "undecided": [u[:300] for u in und[:3]]}
